@@ -28,7 +28,7 @@ OTHER_ENGINE = bytes.fromhex("80001f88801122334455")
 
 def build_case(u):
     cfg = gen.g_cfg(u)
-    driver = "nb" if u.below(20) < 18 else u.choice(["sync", "async"])
+    driver = "nb" if u.below(20) < 17 else u.choice(["sync", "async", "async"])
     nreq = u.range(1, 4)
     ops_all = ["get", "get_many", "getnext1", "getbulk1"] if cfg.version != "v1" else ["get", "get_many", "getnext1"]
     reqs = []
@@ -45,11 +45,14 @@ def build_case(u):
             ems.insert(u.below(len(ems) + 1), (k, "deliver", 0))
         reqs.append({"op": op, "ems": ems})
     # v3: half of the non-blocking sessions learn their engine id through a discovery exchange first (as the clients do)
-    return {"cfg": cfg, "driver": driver, "reqs": reqs, "discover": cfg.version == "v3" and driver == "nb" and u.bool()}
+    # sync / async: the datagrams of a burst arrive either back to back (the receive loop sees them queued) or a few ms
+    # apart (the socket runs empty after each, so the clients have to resume waiting)
+    gap = u.choice([0, 0, 4, 8]) if driver != "nb" else 0
+    return {"cfg": cfg, "driver": driver, "reqs": reqs, "discover": cfg.version == "v3" and driver == "nb" and u.bool(), "gap_ms": gap}
 
 
 def describe(c):
-    return {"cfg": c["cfg"].describe(), "_cfg": gen.cfg_to_json(c["cfg"]), "driver": c["driver"], "reqs": c["reqs"], "discover": c.get("discover", False)}
+    return {"cfg": c["cfg"].describe(), "_cfg": gen.cfg_to_json(c["cfg"]), "driver": c["driver"], "reqs": c["reqs"], "discover": c.get("discover", False), "gap_ms": c.get("gap_ms", 0)}
 
 
 def value_for(k):
@@ -192,6 +195,12 @@ def execute(G, c, timeout=0.15):
             else:
                 out.extend(ms)
         bursts.append(out)
+        g = c.get("gap_ms", 0)
+        if g and c["driver"] != "nb":
+            spaced = []
+            for o in out:
+                spaced += [o, min(g, 80.0 / max(1, len(out))) / 1000.0]
+            return spaced
         return out
 
     calls = []
@@ -295,7 +304,7 @@ def run(rep, tier):
         faults = set(f for r in c["reqs"] for _, f, _ in r["ems"])
         rep.case((c["cfg"].describe(), repr(c["reqs"])), nontrivial(c),
                  sample={"cfg": c["cfg"].describe(), "driver": c["driver"], "reqs": c["reqs"]},
-                 classes=["driver:" + c["driver"], "ver:" + c["cfg"].version, "nreq:%d" % len(c["reqs"])] + ["fault:" + f for f in faults]
+                 classes=["driver:" + c["driver"], "ver:" + c["cfg"].version, "gap:%d" % c.get("gap_ms", 0), "nreq:%d" % len(c["reqs"])] + ["fault:" + f for f in faults]
                  + (["v3_engine_id_discovered"] if c.get("discover") else []))
 
     n = 4000 if tier == "quick" else 100000
@@ -329,7 +338,7 @@ def exhaustive(rep, G):
 
 def replay(rep, case, body=None):
     G = drivers.load()
-    c = {"cfg": gen.cfg_from_json(case["_cfg"]), "driver": case["driver"], "discover": case.get("discover", False),
+    c = {"cfg": gen.cfg_from_json(case["_cfg"]), "driver": case["driver"], "discover": case.get("discover", False), "gap_ms": case.get("gap_ms", 0),
          "reqs": [{"op": r["op"], "ems": [tuple(e) for e in r["ems"]]} for r in case["reqs"]]}
     try:
         try:
